@@ -2,7 +2,7 @@
    Directives: ExtrOcamlBasic only (bool, option, unit, list, prod, sumbool, comparison
    mapped to the OCaml types of the same meaning).  N, positive, nat and Byte.byte stay the
    extracted inductive types; there is no Extract Constant and no further Extract Inductive. *)
-From Ztyp Require Import Base Bitlen Bitfields Tree Merkleize Types Spec Reader View Mut Heap.
+From Ztyp Require Import Base Bitlen Bitfields Tree Merkleize Types Spec Reader View Mut Heap Iter Codec Conv.
 Require Extraction.
 Require ExtrOcamlBasic.
 Extraction Language OCaml.
@@ -22,4 +22,9 @@ Extraction "model.ml"
   info default_node from_val view_deserialize view_deserialize_scoped byte_len ser_node
   view_get union_selector union_value read_val list_length
   tm_step tm_init
+  ro_iter ix_iter get_all
+  flat_enc flat_len flat_decode flat_htr flat_fixed_len
+  print_dec parse_uint uint_unmarshal_json uint_unmarshal_text uint_unmarshal_json_cast
+  uint_marshal_text uint_marshal_json u256_unmarshal_text u256_unmarshal_json
+  bytes_marshal_text fixed_bytes_unmarshal big_unmarshal
   heap_init h_getter h_setter h_merkle h_abs hm_step hm_alloc h_cell.
